@@ -7,7 +7,7 @@ open Proto Storage.Upload
 
 /- case <id> kind=up day=YYYYMMDD user=<hex> store=local|mem reqs=<req>;<req>;…
      req   = <parts>|<endErr>|<fault>|<cut>|<day of the request>
-     parts = - | part+part+…    part = X:<name hex> | F:<fname hex>:<content hex>:<cut>:<chunks a.b.c or ->
+     parts = - | part+part+…    part = X:<name hex>[:<filename hex>] | F:<fname hex>:<content hex>:<cut>:<chunks a.b.c or ->
      fault = - | <k>.<o|s>.<d|l>
    case <id> kind=ids day=… ops=<m><c|a>,…
    case <id> kind=conc g=… m=… -/
@@ -17,6 +17,7 @@ def hexD (s : String) : Bytes := (Bytes.ofHex s).getD []
 def parsePart (s : String) : Option Part :=
   match s.splitOn ":" with
   | ["X", n] => some (Part.field (hexD n))
+  | ["X", n, _] => some (Part.field (hexD n))   -- a field part that carries a filename parameter
   | ["F", fnm, c, cut, ch] =>
     let chunks := if ch == "-" then [] else (ch.splitOn ".").filterMap String.toNat?
     some (Part.file (hexD fnm) (hexD c) (cut == "1") chunks)
